@@ -53,8 +53,8 @@ def run(ctx: Ctx):
 
 
 def _c11_shared(sub, m):
-  c11.r1(sub, m)
-  c11.r2(sub, m)
+  sub.guard(c11.r1, m)
+  sub.guard(c11.r2, m)
 
 
 def _ctor_fields(m, ci, new_fi):
